@@ -51,6 +51,19 @@ CLAIMED = {
              "the Fortran-side trim()//C_NULL_CHAR and std::string internals are taken at their standard meaning.",
         technique="Coq proof over hand model + regenerated table theorem + compiled-helper correspondence",
         design="4/C10"),
+    "C11": dict(
+        text="Coq theorem (unbounded: any number of members, any well-formed expressions, any injective C/Fortran naming) over "
+             "executable models of declast.tokenize, ExprParser, enum parsing, todict.PrintNode(Identifier) and the EnumNode value "
+             "loop: every member's emitted C text (or the C rule previous+1 when none is emitted) and Fortran text are renderings "
+             "of expressions whose value is the value C++ assigns; renaming preserves values; Fortran reads well-formed literals "
+             "like C. The full statement is refuted by a computed witness (octal literal) = known finding. Tie: extracted model vs "
+             "real tokenizer/parser/printer/EnumNode on random inputs; specification side validated (and failing inputs searched) "
+             "by compiling the original with g++, the generated header with gcc and the generated module with gfortran.",
+        note="Trusted: Coq kernel, extraction, harness, compilers for validation. The reading of rendered text by C/Fortran "
+             "compilers (print/parse round trip, precedence) is validated by compilation, not proved. Overflow/underlying type not "
+             "modelled. Python \\d / int() on non-ASCII digits not modelled.",
+        technique="Coq proof over hand model + extracted-model correspondence + compile-and-compare oracle",
+        design="4/C11"),
 }
 
 PENDING = {}
